@@ -33,7 +33,8 @@ CONSTANTS Comps,       \* set of component ids known to the API (1..NC)
           Unknown,     \* a component id the API does not know
           Namespaces,  \* 1..NN
           Metrics,     \* 1..NM
-          ReqSet,      \* requests clients may send: set of [c, ns, m]
+          Starts,      \* start_time values: 0 = None, 1 = some fixed datetime
+          ReqSet,      \* requests clients may send: set of [c, ns, m, st]
           MaxMsg,      \* total number of API messages
           MaxReq,      \* total number of requests
           MaxDepth,    \* history bound (generation only)
@@ -60,9 +61,11 @@ VARIABLES nmsg,       \* c -> number of messages the API stream of c has produce
 vars == <<nmsg, hasrecv, recvFrom, apiq, reqq, cur, cached, subs, hst, epoch, snap, fan, consumed, delivered, inst, nreq, h>>
 View == <<nmsg, hasrecv, recvFrom, apiq, reqq, cur, cached, subs, hst, epoch, snap, fan, consumed, delivered, inst, nreq>>
 
-Keys == [c : Comps, ns : Namespaces, m : Metrics]
-KeyOf(r) == [c |-> r.c, ns |-> r.ns, m |-> r.m]
-NoReq == [c |-> 0, ns |-> 0, m |-> 0]
+\* a subscription is identified by exactly what determines the channel name
+\* (ComponentMetricRequest.get_channel_name: namespace, component, metric, start_time)
+Keys == [c : Comps, ns : Namespaces, m : Metrics, st : Starts]
+KeyOf(r) == [c |-> r.c, ns |-> r.ns, m |-> r.m, st |-> r.st]
+NoReq == [c |-> 0, ns |-> 0, m |-> 0, st |-> 0]
 SubsOf(c) == {k \in subs : k.c = c}
 
 EmitOn == "OUT_FILE" \in DOMAIN IOEnv
@@ -164,29 +167,29 @@ Send(c, k) ==
     /\ UNCHANGED <<nmsg, hasrecv, recvFrom, apiq, reqq, cur, cached, subs, hst, epoch, snap, consumed, inst, nreq>>
 
 ----------------------------------------------------------------------------
-Rec(a, c, ns, m) == [a |-> a, c |-> c, ns |-> ns, m |-> m]
+Rec(a, c, ns, m, st) == [a |-> a, c |-> c, ns |-> ns, m |-> m, st |-> st]
 Generating == Mode \in {"gen", "env", "sim"}
 Gen == Generating => Len(h) < MaxDepth
 Log(r) == h' = (IF Generating THEN Append(h, r) ELSE h)
 EmitRule == Mode \in {"gen", "env"} => Emit(h')
 IntOn == Mode # "env"          \* "env": only the environment's event orders are enumerated
 
-MsgStep == Gen /\ (\E c \in Comps : ApiMsg(c) /\ Log(Rec("msg", c, 0, 0))) /\ EmitRule
-ReqStep == Gen /\ (\E r \in ReqSet : Request(r) /\ Log(Rec("req", r.c, r.ns, r.m))) /\ EmitRule
-RecvStep == IntOn /\ Gen /\ (ActorRecv \/ ActorTake) /\ Log(Rec("int", 0, 0, 0)) /\ EmitRule
-AddStep == IntOn /\ Gen /\ ActorAdd /\ Log(Rec("int", 0, 0, 0)) /\ EmitRule
-StartStep == IntOn /\ Gen /\ (\E c \in Comps : HandlerStart(c) /\ Log(Rec("int", 0, 0, 0))) /\ EmitRule
-ConsStep == IntOn /\ Gen /\ (\E c \in Comps : HandlerRecv(c) /\ Log(Rec("int", 0, 0, 0))) /\ EmitRule
-SendStep == IntOn /\ Gen /\ (\E k \in Keys : Send(k.c, k) /\ Log(Rec("int", 0, 0, 0))) /\ EmitRule
+MsgStep == Gen /\ (\E c \in Comps : ApiMsg(c) /\ Log(Rec("msg", c, 0, 0, 0))) /\ EmitRule
+ReqStep == Gen /\ (\E r \in ReqSet : Request(r) /\ Log(Rec("req", r.c, r.ns, r.m, r.st))) /\ EmitRule
+RecvStep == IntOn /\ Gen /\ (ActorRecv \/ ActorTake) /\ Log(Rec("int", 0, 0, 0, 0)) /\ EmitRule
+AddStep == IntOn /\ Gen /\ ActorAdd /\ Log(Rec("int", 0, 0, 0, 0)) /\ EmitRule
+StartStep == IntOn /\ Gen /\ (\E c \in Comps : HandlerStart(c) /\ Log(Rec("int", 0, 0, 0, 0))) /\ EmitRule
+ConsStep == IntOn /\ Gen /\ (\E c \in Comps : HandlerRecv(c) /\ Log(Rec("int", 0, 0, 0, 0))) /\ EmitRule
+SendStep == IntOn /\ Gen /\ (\E k \in Keys : Send(k.c, k) /\ Log(Rec("int", 0, 0, 0, 0))) /\ EmitRule
 
 Next == MsgStep \/ ReqStep \/ RecvStep \/ AddStep \/ StartStep \/ ConsStep \/ SendStep
 
 Spec == Init /\ [][Next]_vars
 FairSpec == /\ Spec
             /\ WF_vars(RecvStep) /\ WF_vars(AddStep)
-            /\ \A c \in Comps : WF_vars(HandlerStart(c) /\ Log(Rec("int", 0, 0, 0)))
-            /\ \A c \in Comps : WF_vars(HandlerRecv(c) /\ Log(Rec("int", 0, 0, 0)))
-            /\ \A k \in Keys : WF_vars(Send(k.c, k) /\ Log(Rec("int", 0, 0, 0)))
+            /\ \A c \in Comps : WF_vars(HandlerStart(c) /\ Log(Rec("int", 0, 0, 0, 0)))
+            /\ \A c \in Comps : WF_vars(HandlerRecv(c) /\ Log(Rec("int", 0, 0, 0, 0)))
+            /\ \A k \in Keys : WF_vars(Send(k.c, k) /\ Log(Rec("int", 0, 0, 0, 0)))
 
 
 ----------------------------------------------------------------------------
